@@ -324,6 +324,41 @@ pub fn explore_cfg(c: &Cfg, data: &[u8], sizes: &dyn Fn(usize) -> Vec<usize>, ag
     }
 }
 
+/// Cut list of the real chunker with the input delivered `read_size` bytes per read (Pending before every 3rd read).
+pub fn cuts_with_reads(c: &Cfg, data: &[u8], read_size: usize) -> Result<Vec<usize>, String> {
+    let mut script = vec![];
+    let mut left = data.len();
+    let mut i = 0;
+    while left > 0 {
+        if i % 3 == 2 {
+            script.push(Ans::Pending);
+        }
+        let k = read_size.min(left);
+        script.push(Ans::Ready(k));
+        left -= k;
+        i += 1;
+    }
+    script.push(Ans::Eof);
+    let fc = bitar::chunker::FilterConfig {
+        filter_bits: bitar::chunker::FilterBits::from_bits(c.bits),
+        min_chunk_size: c.min,
+        max_chunk_size: c.max,
+        window_size: c.w,
+    };
+    let out = match c.algo {
+        Algo::Fixed => run_script(&|| FixedSizeChunker::new(c.max), data, &script),
+        Algo::Roll => run_script(&|| RollingHashChunker::new(RollSum::new(c.w), &fc), data, &script),
+        Algo::Buz => run_script(&|| RollingHashChunker::new(BuzHash::new(c.w), &fc), data, &script),
+    };
+    if let Some(e) = out.error {
+        return Err(e);
+    }
+    if !out.state.finished {
+        return Err("stream did not finish".into());
+    }
+    Ok(out.chunks.iter().map(|(o, b)| *o as usize + b.len()).collect())
+}
+
 fn boundary_family(c: &Cfg) -> Vec<Vec<u8>> {
     // lengths around window / min / max; contents constant-0, constant-x, period-2, period-w, counter
     let mut lens = vec![0usize, 1, c.w.saturating_sub(1), c.w, c.w + 1, c.min.saturating_sub(1), c.min, c.min + 1, c.max.saturating_sub(1), c.max, c.max + 1, 2 * c.max + 1];
